@@ -288,12 +288,14 @@ func checkC05(c *Ctx) {
 	c.Clause("least_connections: gauges read atomically; a candidate replaces the choice only when its gauge is smaller, so the result is a minimum of what was read; candidates are health-tested")
 	c.Clause("weights below 1 count as 1 where the backend is created")
 	c.Clause("the in-flight gauge least_connections compares is changed only by an atomic ±1 at request start/end (a lost decrement makes an idle backend look loaded)")
+	c.Clause("the round-robin cursor, advanced with 64-bit atomics, is 8-byte aligned under the 386/arm layout (otherwise every pick panics on 32-bit platforms)")
 	c.Clause("weighted_round_robin credits a backend only while it is eligible; reading and publishing the in-flight gauge is one step per backend")
 	c.NotDecided("exact per-window counts of round robin / smooth WRR; the WRR bound after membership changes — numeric results over histories")
 
 	lockDiscipline(c, func(k string) bool {
 		return k == "loadbalancer.RoundRobinStrategy.current" || k == "loadbalancer.weightedBackend.currentWeight" || k == "loadbalancer.Backend.ActiveConnections" || strings.HasSuffix(k, "Strategy.backends")
 	})
+	c.Floor("atomic64-aligned", atomic64Aligned(c, func(k string) bool { return k == "loadbalancer.RoundRobinStrategy.current" }), 1, "round-robin cursor operated on with 64-bit atomics")
 	c.strategyHealthGuard()
 	// least_connections picks the minimum of the in-flight gauges: they must equal the number of
 	// requests in flight (only ±1 per request start/end, atomically)
